@@ -185,6 +185,10 @@ type Exec struct {
 	writeLog      map[string]bool // heap components written (for havoc fail-safe)
 	frames        []*Frame
 	lastSpecState *State
+	recActive     map[*ssa.Function]string
+	recDone       map[string]bool
+	recParams     []Value
+	globalAxioms  []*Term
 	curInstr      ssa.Instruction
 }
 
